@@ -24,7 +24,7 @@ for id in $ids; do
   if [ "$applies" = yes ]; then
     tests=$(cd "$wt" && /venv/bin/python -m pytest -q -p no:cacheprovider --timeout=900 2>&1 | tail -1 | grep -oE '[0-9]+ passed|[0-9]+ failed' | tr '\n' ' ')
     for chk in $checks; do
-      o=$(cd "$here" && VERIF_REPO="$wt" VERIF_NO_EVIDENCE=1 timeout 1800 ./vf "$chk" quick 2>&1); rc=$?
+      o=$(cd "$here" && VERIF_REPO="$wt" VERIF_NO_EVIDENCE=1 VERIF_STOP_ON_VIOLATION=1 timeout 1800 ./vf "$chk" quick 2>&1); rc=$?
       what=$(echo "$o" | grep -m1 'what:' | sed 's/ *what: //' | cut -c1-140 | tr '|' '/')
       res=$([ $rc -eq 1 ] && echo CAUGHT || echo "rc=$rc")
       echo "| $id | yes | $tests | $chk | $res | $what |" >> "$out.tmp"
